@@ -202,7 +202,7 @@ def is_signature(text, fi):
     return any(shape.match(p, v) is not None for v, _ in closure_defs(fi, e.id) for p in pats)
 
 
-def _signature_view(e, fi, lower="0"):
+def signature_view(e, fi, lower="0"):
     """`e` (resolved) peeled down to `<signature>.parameters`: (mode, lower, text of the mapping) with mode 'names' /
     'objects' (.values()) / 'items' (.items()); order-preserving wrappers (list / tuple / iter / .keys() / islice from a
     lower bound / a `[lower:]` slice / a view prepared once by the enclosing function) are looked through.  None if
@@ -230,7 +230,7 @@ def _signature_view(e, fi, lower="0"):
 
 def signature_walk(node, fi, npos):
     """Role: `node` is evaluated once per parameter of the wrapped function's signature, in declaration order: inside a
-    loop / comprehension over `sig.parameters` or an order-preserving view of it (see _signature_view; names, the
+    loop / comprehension over `sig.parameters` or an order-preserving view of it (see signature_view; names, the
     parameter objects of `.values()` or the pairs of `.items()`), possibly enumerated, or inside an index loop
     `for i in range(lower, len(VIEW))` that reads `VIEW[i]`.
     Returns None if it is not, else (names, index, beyond, objects, aligned): the spellings (temporaries resolved) of
@@ -245,7 +245,7 @@ def signature_walk(node, fi, npos):
     aligned = {}
     rng = shape.match("range(_L, len(_V))", e) or shape.match("range(len(_V))", e)
     if rng is not None and isinstance(target, ast.Name):
-        view = _signature_view(ast.parse(rng["_V"], mode="eval").body, fi)
+        view = signature_view(ast.parse(rng["_V"], mode="eval").body, fi)
         if view is None or view[1] != "0":
             return None
         mode, lower, mapping = view[0], rng.get("_L", "0"), view[2]
@@ -263,7 +263,7 @@ def signature_walk(node, fi, npos):
             enumerated = True
             start = norm(e.args[1]) if len(e.args) > 1 else next((norm(k.value) for k in e.keywords if k.arg == "start"), "0")
             e = e.args[0]
-        view = _signature_view(e, fi)
+        view = signature_view(e, fi)
         if view is None:
             return None
         mode, lower, mapping = view
@@ -296,6 +296,22 @@ def signature_walk(node, fi, npos):
         beyond = any((t and norm(resolve(a, fi.node)) in (f"{counter} >= {npos}", f"{npos} <= {counter}")) or
                      (not t and norm(resolve(a, fi.node)) in (f"{counter} < {npos}", f"{npos} > {counter}")) for a, t in facts(node, fi.node))
     return names, index, beyond, objs, aligned
+
+
+def reaching_defs(fi, name, use, avoid_edges=()):
+    """The definitions [(value, kind, stmt)] of local `name` in `fi` that can reach the statement containing `use`
+    without passing another definition of `name` (and without taking any of `avoid_edges`): flow-sensitive, so a
+    definition in a branch that returns, or one that is always overwritten, does not count."""
+    cfg = cfg_of(fi)
+    ds = [(v, k, st) for v, k, st in defs_of(fi).defs.get(name, []) if k != "fill"]
+    goal = cfg.nodes_for_ast(use)
+    ids = {id(st): set(cfg.nodes_for_ast(st)) for _, _, st in ds}
+    out = []
+    for v, k, st in ds:
+        others = set().union(*[ids[id(o)] for _, _, o in ds if o is not st] or [set()]) - ids[id(st)]
+        if any(cfg.path(n, goal, avoid=others - set(goal), avoid_edges=avoid_edges) is not None for n in ids[id(st)]):
+            out.append((v, k, st))
+    return out
 
 
 def names_it(e, fn, texts):
